@@ -114,7 +114,7 @@ func checkSign(c signCase) (h.Info, error) {
 	}
 	for _, hf := range []crypto.Hash{crypto.SHA512, crypto.SHA256, crypto.SHA1} {
 		digest := sha512.Sum512(msg)
-		if s4, err := signer.Sign(nil, digest[:], hf); err == nil || s4 != nil {
+		if s4, err := signer.Sign(nil, digest[:], hf); err == nil { // what accompanies the error is not specified
 			return info, fmt.Errorf("PrivateKey.Sign with pre-hash option %v must fail, got %x, %v", hf, s4, err)
 		}
 	}
@@ -127,7 +127,7 @@ func checkSign(c signCase) (h.Info, error) {
 	if len(rd.data) != 2 {
 		return info, fmt.Errorf("GenerateKey consumed %d bytes, want 32", 34-len(rd.data))
 	}
-	if gp, gk, err := ed25519.GenerateKey(&shortReader{data: seed[:31]}); err == nil || gp != nil || gk != nil {
+	if _, _, err := ed25519.GenerateKey(&shortReader{data: seed[:31]}); err == nil {
 		return info, fmt.Errorf("GenerateKey with a 31-byte reader must fail")
 	}
 	if !priv.Equal(gpriv) || !pub.Equal(gpub) || pub.Equal(priv) {
